@@ -3,7 +3,7 @@
 //	c16 corr   -seed S -n N        cases + implementation observables for the model diff (modelled targets)
 //	c16 search -seed S -n N        evaluates the property itself (class must be ok|err, allocation linear)
 //	                               on every target; prints FAIL / EVALS lines
-//	c16 replay <target> <hex> <arg>  one call, prints its class
+//	c16 replay <target> <hex> <arg> [<control hex> <control arg>]  one call (after the control), prints its class
 //	c16 worker                     (internal) executes calls read from stdin, one per line
 //
 // Every hostile call is executed in a WORKER SUBPROCESS (this binary re-invoked with `worker`): an
@@ -89,8 +89,12 @@ func workerMain() {
 		}
 		t := targetByName[f[0]]
 		arg, _ := strconv.Atoi(f[2])
-		in := hx.Exact(hx.UnHex(f[1]))
+		raw := hx.UnHex(f[1])
+		in := hx.Exact(raw)
 		class, value, alloc := runOne(t, in, arg)
+		if workerHyg && t != nil {
+			class, value = hygOne(t, raw, arg, class, value) // cross-cutting oracles: hygiene.go
+		}
 		fmt.Fprintf(wr, "%s\t%s\t%d\n", class, value, alloc)
 		wr.Flush() // every reply at once: an unanswered request is then the one being executed
 		if err != nil {
@@ -174,6 +178,8 @@ type runner struct {
 	hangs, maxHangs int
 	// statistics
 	calls, restarts, skipped int
+	// the worker also evaluates the hygiene oracles (search, replay): hygiene.go
+	hyg bool
 }
 
 // after this many expensive failures of one target its remaining cases are skipped; after
@@ -205,7 +211,11 @@ func (r *runner) done() bool {
 }
 
 func (r *runner) start() {
-	cmd := exec.Command(os.Args[0], "worker")
+	wargs := []string{"worker"}
+	if r.hyg {
+		wargs = append(wargs, "hyg")
+	}
+	cmd := exec.Command(os.Args[0], wargs...)
 	in, err := cmd.StdinPipe()
 	if err != nil {
 		fatal("stdin pipe: %v", err)
@@ -531,6 +541,7 @@ type failure struct {
 
 func search(seed uint64, n int) {
 	r := newOptRunner()
+	r.hyg = true
 	defer r.stop()
 	fails := map[string]*failure{}
 	evals := 0
@@ -561,6 +572,13 @@ func search(seed uint64, n int) {
 	forRounds(n, func(round, m int) {
 		// a tenth of the budget goes to the (modelled, cheap) walkers, the rest to the stage-2 targets
 		cs := append(walkerCases(seed+1, round, m/10, n/10), searchCases(seed+2, round, m, n)...)
+		// the value-rendering targets of the correspondence (configuration records, SEI, stage 2, HEVC model) as well:
+		// the hygiene oracles compare VALUES (sub-slice vs exact copy, control answers), the plain search targets
+		// mostly render none
+		cs = append(cs, confRecCorrCases(seed+3, round, m/20, n/20)...)
+		cs = append(cs, seiCorrCases(seed+4, round, m/20, n/20)...)
+		cs = append(cs, stage2CorrCases(seed+5, round, m/20, n/20)...)
+		cs = append(cs, hevcModelCorrCases(seed+6, round, m/20, n/20)...)
 		r.batch(cs, func(i int, res result) { check(cs[i], res) })
 	})
 	keys := make([]string, 0, len(fails))
@@ -584,6 +602,7 @@ func main() {
 	}
 	switch os.Args[1] {
 	case "worker":
+		workerHyg = len(os.Args) > 2 && os.Args[2] == "hyg"
 		workerMain()
 	case "corr", "search":
 		fs := flag.NewFlagSet(os.Args[1], flag.ExitOnError)
@@ -609,7 +628,12 @@ func main() {
 		}
 		arg, _ := strconv.Atoi(os.Args[4])
 		r := newRunner(budget)
+		r.hyg = true
 		defer r.stop()
+		if len(os.Args) >= 7 { // optional: the control input asked before (class poisoned)
+			carg, _ := strconv.Atoi(os.Args[6])
+			_, _ = r.call(os.Args[2], hx.UnHex(os.Args[5]), carg)
+		}
 		class, value := r.call(os.Args[2], hx.UnHex(os.Args[3]), arg)
 		fmt.Printf("%s\t%s\n", class, value)
 	case "files":
